@@ -24,7 +24,7 @@ def build_roots():
         for fl in ('no', 'zo'):
             add('r_w2vt_%s_%s' % (fl, L), 'pub fn r_w2vt_%s_%s(p: (Vec2<f32>, f32), mv: %s, pr: %s, vp: Rect<f32, f32>) -> Vec3<f32> { %s4::world_to_viewport_%s(p, mv, pr, vp) }' % (fl, L, M, M, L, fl), kind='w2v', fl=fl, l=L, tup=True)
             add('r_v2wt_%s_%s' % (fl, L), 'pub fn r_v2wt_%s_%s(r: (Vec2<f32>, f32), mv: %s, pr: %s, vp: Rect<f32, f32>) -> Vec3<f32> { %s4::viewport_to_world_%s(r, mv, pr, vp) }' % (fl, L, M, M, L, fl), opaque=['*Mat4*::inverted'], kind='v2w', fl=fl, l=L, tup=True)
-        add('r_pick_%s' % L, 'pub fn r_pick_%s(c: Vec2<f32>, d: Vec2<f32>, vp: Rect<f32, f32>) -> %s { %s4::picking_region(c, d, vp) }' % (L, M, L), kind='pick', l=L)
+        add('r_pick_%s' % L, 'pub fn r_pick_%s(c: Vec2<f32>, d: Vec2<f32>, vp: Rect<f32, f32>) -> %s { %s4::picking_region(c, d, vp) }' % (L, M, L), kind='pick', l=L, max_paths=400)
     return roots, meta
 
 
@@ -39,11 +39,16 @@ def run(ctx):
     sc = ctx.scan(roots, QUICK_FEATURES)
     if sc.compile_error: return
     done = 0
-    for r in roots:
+    # the symbolic round trip is the expensive rule (it goes through the real general inverse): it is evaluated last, and only where the
+    # projection / unprojection formulas of the same layout and depth flavour hold -- where they do not, cancellation fails and the
+    # rational functions explode (a seeded change made the check run for half an hour to report what the formula rules had said in a minute)
+    bad = set()
+    for r in sorted(roots, key=lambda r: meta[r.name]['kind'] == 'rt'):
         rs = sc.get(r.name); m = meta[r.name]
         if rs is None or not rs.ok: continue
         done += 1
         k = m['kind']; key = 'c10/' + r.name[2:]; w = r.code; L = m['l']
+        nv0 = len(ctx.violations)
         vx, vy, vw, vh = (sym('a3.' + n) for n in 'xywh') if k in ('w2v', 'v2w') else (sym('a2.' + n) for n in 'xywh')
         PX = [sym('a0.0.x'), sym('a0.0.y'), sym('a0.1')] if m.get('tup') else [sym('a0.x'), sym('a0.y'), sym('a0.z')]
         try:
@@ -74,6 +79,8 @@ def run(ctx):
                 o = matvec(Inv, n)
                 vec_eq(ctx, key, p.ret, [o[i] / o[3] for i in range(3)], 'alg=: unprojection = homogenise(Inverse * n), n = inverse viewport map of the window position (depth 2z-1 resp. z)', w)
             elif k == 'rt':
+                if (L, m['fl']) in bad:
+                    ctx.viol(key + '/not-evaluated', rule='alg=: unproject(project(p)) = p; not evaluated because the projection / unprojection formula of this layout and depth flavour is already violated', where=w, expected='formulas hold', found='see the w2v / v2w violations of %s %s' % (L, m['fl'])); continue
                 rets = [q for q in feasible_paths(rs) if q.out == 'ret']
                 if not ctx.ob(key + '/paths', len(rets) >= 1, 'paths', w, '>=1 returning path', len(rets)): continue
                 for i, q in enumerate(rets):
@@ -103,5 +110,6 @@ def run(ctx):
                         ctx.same(ck + '/z', o[2] / o[3], z, 'alg=: depth unchanged', w)
         except (AssertionError, KeyError, ValueError, TypeError, IndexError, ZeroDivisionError, AttributeError) as e:
             ctx.ob(key + '/paths', False, 'path structure', w, 'analysable', str(e))
+        if k in ('w2v', 'v2w') and len(ctx.violations) > nv0: bad.add((L, m['fl']))
     ctx.floor('roots analysed', done, len(roots))
     ctx.floor('API uses generated (counted at implementation time)', len(roots), 22)
